@@ -69,6 +69,10 @@ EXPLANATION += (
     ' Round 6: a rejection for an empty marker list of the cache also looks at the number of children (R-GUARD/empty-list-rejection).'
 )
 
+EXPLANATION += (
+    ' Round 7: marker columns are selected from the query by a name-derived fancy index, not a range (R-ROLE/columns-by-name, rule of C07).'
+)
+
 RULE_TEXT = (
     "one obligation per cache-path argument, per indexed comprehension, "
     "per cache dataset, per log conditional, per error condition, per "
@@ -93,6 +97,10 @@ def check(ctx):
     check_errors(ctx)
     check_single_child(ctx)
     check_empty_list_rejections(ctx)
+    # marker columns are taken from the query by name, in the order asked
+    # for (rule of C07)
+    from .C07 import check_columns_by_name
+    check_columns_by_name(ctx)
     check_patch_restricted(ctx)
     check_deepest_first(ctx)
     check_lists_consulted_follow_tree(ctx)
